@@ -121,4 +121,4 @@ PROPS["C10"]["explanation"] += "; connector consumers in the engine harness (1..
 for _pid in ("C01", "C10", "C14"):
     PROPS[_pid]["families"] = PROPS[_pid]["families"] + ["twowf"]
     PROPS[_pid]["explanation"] += "; two workflows of different names on ONE in-memory streamer / record store / role scheduler / timeout store: every run of both completes and every hook runs to success"
-    PROPS[_pid]["assumptions"] = PROPS[_pid]["assumptions"] + ["twowf: real goroutines on the in-memory adapters; 'completed' is awaited with a bound (6 s, repeated once with 40 s; a rejected case is re-run by check)"]
+    PROPS[_pid]["assumptions"] = PROPS[_pid]["assumptions"] + ["twowf: real goroutines on the in-memory adapters; 'completed' is awaited with a bound (4 s, repeated once with 15 s; a rejected case is re-run by check)"]
